@@ -12,7 +12,7 @@
 
 static fiber_mutex_t M;
 static fiber_cond_t C;
-static int W, mode, hold, extra, rewait, early, nsig = 1;
+static int W, mode, hold, extra, rewait, early, nsig = 1, stray_on;
 static int g_registered, g_returned, g_credits, g_owner = -1, g_sigdone;
 
 GHOST static void own(int id) {
@@ -141,10 +141,19 @@ int harness_main(void) {
   fmc_focus(&M, sizeof M);
   fmc_focus(&C, sizeof C);
   fmc_begin();
+  // -Dallcfg=1: the configuration itself is an enumerated input: 1-2 waiters x signal/broadcast x
+  // signaller holding the mutex or not x 0-1 early signals x a stray signaller or not (32 programs)
+  if (fmc_param("allcfg", 0)) {
+    W = 1 + fmc_input(2);
+    mode = fmc_input(2);
+    hold = fmc_input(2);
+    early = fmc_input(2);
+    if (fmc_input(2)) stray_on = 1;
+  }
   for (int i = 0; i < W + extra; i++) fiber_detach(fiber_create(STK, waiter, (void*)(intptr_t)i));
   nsig = fmc_param("signallers", 1);
   for (int i = 0; i < nsig; i++) fiber_detach(fiber_create(STK, signaller, (void*)(intptr_t)i));
-  if (fmc_param("stray", 0)) fiber_detach(fiber_create(STK, stray, 0));
+  if (fmc_param("stray", 0) || stray_on) fiber_detach(fiber_create(STK, stray, 0));
   if (fmc_param("noise", 0)) fiber_detach(fiber_create(STK, noise, (void*)(intptr_t)fmc_param("noise", 0)));
   rt_park_until_quiescent(at_quiescence);
   return 0;
